@@ -190,12 +190,12 @@ Definition elide (sc : str) (pt : option N) : option N :=
   match pt with Some p => if opt_N_eqb (Some p) (default_port sc) then None else Some p | None => None end.
 
 Lemma url_str_memo u ru rp h pt :
-  u_eager u = Some (mk_memo ru rp (Some h) pt) -> mem 58 h = false ->
+  netloc_parts u = Ok (mk_memo ru rp (Some h) pt) -> mem 58 h = false ->
   u_netloc u = make_netloc' B ru rp (Some h) pt false ->
   url_str B u = Ok (unsplit_result (u_scheme u) (make_netloc' B ru rp (Some h) (elide (u_scheme u) pt) false)
                                    (printed_path u) (u_query u) (u_fragment u)).
 Proof.
-  intros E H58 En. unfold url_str, explicit_port, host_subcomponent, raw_user, raw_password, raw_host, netloc_parts, printed_path.
+  intros E H58 En. unfold url_str, explicit_port, host_subcomponent, raw_user, raw_password, raw_host, printed_path.
   rewrite E. cbn [bind m_port m_host m_user m_password option_map]. unfold bracket_if_colon. rewrite H58.
   unfold elide. destruct pt as [p|]; [|now rewrite En].
   destruct (opt_N_eqb (Some p) (default_port (u_scheme u))); cbn [bind]; [reflexivity|now rewrite En].
@@ -220,40 +220,37 @@ Proof.
   exists nl, p, q, f. split; [now symmetry|]. split; [exact A|]. eapply sub_valid; eauto.
 Qed.
 
-(** the fixed point for authorities "[user[:password]@]name[:port]" with a plain ASCII host name *)
-Theorem fixed_point_userinfo s u :
-  valid_str s -> encode_url O B s = Ok u ->
-  (let '(_, nl0, _, _, _) := rfc_split (spec_clean s) in
-   exists us pw h0 pt, split_netloc nl0 = Ok (us, pw, Some h0, pt) /\ plain_name h0) ->
-  (* F30: a user made only of lone surrogates canonicalises to the empty string *)
-  (forall m, u_eager u = Some m -> m_user m <> Some []) ->
+(** the fixed point as a statement about URL VALUES (however produced - constructor, build,
+    modifiers): a value whose stored authority is make_netloc of canonical userinfo texts, a
+    plain lower-case host name and a port in range, with exactly those parts pre-computed,
+    and whose scheme, path, query and fragment are canonical, prints as a string that
+    parses back to the same parts *)
+Record canon_value (u : url) (ru rp : option str) (h : str) (pt : option N) : Prop := {
+  cv_scheme : u_scheme u = [] \/ (forallb rfc_scheme_char (u_scheme u) = true /\ lower_ascii (u_scheme u) = u_scheme u);
+  cv_netloc : u_netloc u = make_netloc' B ru rp (Some h) pt false;
+  cv_parts : netloc_parts u = Ok (mk_memo ru rp (Some h) pt);
+  cv_user : ucanon_opt ru;
+  cv_password : ucanon_opt rp;
+  cv_user_nonempty : ru <> Some [];
+  cv_host : plain_name h;
+  cv_host_lower : lower_ascii h = h;
+  cv_host_chars : forallb not_in3 h = true;
+  cv_port : match pt with Some p => p <= 65535 | None => True end;
+  cv_path : path_canon (u_netloc u) (u_path u);
+  cv_query : canon QRQ (u_query u) = true;
+  cv_fragment : canon FRQ (u_fragment u) = true
+}.
+
+Theorem fixed_point_value u ru rp h pt : canon_value u ru rp h pt ->
   exists s' u2 m m2,
     url_str B u = Ok s' /\ encode_url O B s' = Ok u2 /\ url_str B u2 = Ok s'
-    /\ u_eager u = Some m /\ u_eager u2 = Some m2
+    /\ netloc_parts u = Ok m /\ netloc_parts u2 = Ok m2
     /\ u_scheme u2 = u_scheme u /\ m_user m2 = m_user m /\ m_password m2 = m_password m /\ m_host m2 = m_host m
     /\ port u2 = port u
     /\ u_path u2 = printed_path u /\ raw_path u2 = raw_path u
     /\ u_query u2 = u_query u /\ u_fragment u2 = u_fragment u.
 Proof.
-  intros Hv H Hclass H30.
-  destruct (encode_url_shape_nl s u Hv H) as (nl0 & p0 & q0 & f0 & Es & Ea & Vn).
-  destruct (encode_url_canonical_parts O B s u Hv H) as (Hsc & Hpc & Hqc & Hfc).
-  destruct (rfc_split_facts _ _ _ _ _ _ Es) as (_ & Hnl3 & _ & _ & _).
-  rewrite Es in Hclass. destruct Hclass as (us & pw & h0 & pt & Hsp & Hpl).
-  rewrite (auth_step_class O B _ nl0 us pw h0 pt Hsp Hpl) in Ea. injection Ea as En Ee. symmetry in En, Ee.
-  destruct (split_netloc_sub _ _ _ _ _ Hsp) as [Su Sp].
-  destruct (split_user_norm _ _ _ _ _ Hsp) as [_ Hpt].
-  pose proof (split_netloc_host_sub _ _ _ _ _ Hsp) as Sh.
-  assert (Vu : valid_opt us) by (destruct us; [eapply sub_valid; eauto|exact I]).
-  assert (Vp : valid_opt pw) by (destruct pw; [eapply sub_valid; eauto|exact I]).
-  set (ru := rq B us) in *. set (rp := rq B pw) in *. set (h := lower_ascii h0) in *.
-  assert (Cu : ucanon_opt ru) by (apply rq_canon; exact Vu).
-  assert (Cp : ucanon_opt rp) by (apply rq_canon; exact Vp).
-  assert (Hne : ru <> Some []) by (apply (H30 _ Ee)).
-  destruct (plain_name_lower h0 Hpl) as [Hplh Hn3].
-  assert (H3 : forallb not_in3 h = true).
-  { apply Hn3. apply forallb_forall. intros c Hc. rewrite forallb_forall in Hnl3. apply Hnl3. now apply Sh. }
-  assert (Hl : lower_ascii h = h) by apply lower_ascii_idem.
+  intros [Hsc En Ee Cu Cp Hne Hplh Hl H3 Hpt Hpc Hqc Hfc].
   set (sc := u_scheme u) in *. set (q := u_query u) in *. set (f := u_fragment u) in *.
   set (p' := printed_path u). set (pt' := elide sc pt).
   set (nl' := make_netloc' B ru rp (Some h) pt' false).
@@ -346,7 +343,7 @@ Proof.
     rewrite N1 in G. rewrite N2. cbn [andb] in *. now rewrite G.
   - split; [exact Ee|]. split; [reflexivity|]. cbn [u_scheme u_netloc u_path u_query u_fragment m_user m_password m_host].
     repeat split.
-    + unfold port, explicit_port, netloc_parts. cbn [u_eager u_scheme]. rewrite Ee. subst m2. cbn [bind m_port]. f_equal. fold sc.
+    + unfold port, explicit_port. rewrite Ee. unfold netloc_parts. cbn [u_eager u_scheme]. subst m2. cbn [bind m_port]. f_equal. fold sc.
       subst pt'. unfold elide. destruct pt as [x|]; [|reflexivity].
       destruct (opt_N_eqb (Some x) (default_port sc)) eqn:D; [|reflexivity].
       destruct (default_port sc) as [d|]; [|discriminate]. cbn in D. apply N.eqb_eq in D. now subst.
@@ -354,5 +351,43 @@ Proof.
       assert (N1 : nonempty (u_netloc u) = true) by (destruct (u_netloc u); [congruence|reflexivity]).
       assert (N2 : nonempty nl' = true) by (destruct nl'; [congruence|reflexivity]).
       rewrite N1, N2. destruct Hp'e as [->|(-> & ->)]; reflexivity.
+Qed.
+
+(** the fixed point for authorities "[user[:password]@]name[:port]" with a plain ASCII host name *)
+Theorem fixed_point_userinfo s u :
+  valid_str s -> encode_url O B s = Ok u ->
+  (let '(_, nl0, _, _, _) := rfc_split (spec_clean s) in
+   exists us pw h0 pt, split_netloc nl0 = Ok (us, pw, Some h0, pt) /\ plain_name h0) ->
+  (* F30: a user made only of lone surrogates canonicalises to the empty string *)
+  (forall m, u_eager u = Some m -> m_user m <> Some []) ->
+  exists s' u2 m m2,
+    url_str B u = Ok s' /\ encode_url O B s' = Ok u2 /\ url_str B u2 = Ok s'
+    /\ netloc_parts u = Ok m /\ netloc_parts u2 = Ok m2
+    /\ u_scheme u2 = u_scheme u /\ m_user m2 = m_user m /\ m_password m2 = m_password m /\ m_host m2 = m_host m
+    /\ port u2 = port u
+    /\ u_path u2 = printed_path u /\ raw_path u2 = raw_path u
+    /\ u_query u2 = u_query u /\ u_fragment u2 = u_fragment u.
+Proof.
+  intros Hv H Hclass H30.
+  destruct (encode_url_shape_nl s u Hv H) as (nl0 & p0 & q0 & f0 & Es & Ea & Vn).
+  destruct (encode_url_canonical_parts O B s u Hv H) as (Hsc & Hpc & Hqc & Hfc).
+  destruct (rfc_split_facts _ _ _ _ _ _ Es) as (_ & Hnl3 & _ & _ & _).
+  rewrite Es in Hclass. destruct Hclass as (us & pw & h0 & pt & Hsp & Hpl).
+  rewrite (auth_step_class O B _ nl0 us pw h0 pt Hsp Hpl) in Ea. injection Ea as En Ee. symmetry in En, Ee.
+  destruct (split_netloc_sub _ _ _ _ _ Hsp) as [Su Sp].
+  destruct (split_user_norm _ _ _ _ _ Hsp) as [_ Hpt].
+  pose proof (split_netloc_host_sub _ _ _ _ _ Hsp) as Sh.
+  assert (Vu : valid_opt us) by (destruct us; [eapply sub_valid; eauto|exact I]).
+  assert (Vp : valid_opt pw) by (destruct pw; [eapply sub_valid; eauto|exact I]).
+  set (ru := rq B us) in *. set (rp := rq B pw) in *. set (h := lower_ascii h0) in *.
+  assert (Cu : ucanon_opt ru) by (apply rq_canon; exact Vu).
+  assert (Cp : ucanon_opt rp) by (apply rq_canon; exact Vp).
+  assert (Hne : ru <> Some []) by (apply (H30 _ Ee)).
+  destruct (plain_name_lower h0 Hpl) as [Hplh Hn3].
+  assert (H3 : forallb not_in3 h = true).
+  { apply Hn3. apply forallb_forall. intros c Hc. rewrite forallb_forall in Hnl3. apply Hnl3. now apply Sh. }
+  assert (Hl : lower_ascii h = h) by apply lower_ascii_idem.
+  apply (fixed_point_value u ru rp h pt). constructor; try assumption.
+  unfold netloc_parts. now rewrite Ee.
 Qed.
 End F.
